@@ -272,7 +272,7 @@ class Gen:
         s = "".join(map(chr, cps))
         if self.allow_badstr and r.random() < 0.5:
             i = r.randint(0, len(s))
-            s = s[:i] + chr(r.choice([0xD800, 0xDBFF, 0xDC00, 0xDFFF])) + s[i:]
+            s = s[:i] + chr(r.choice([0xD800, 0xDBFF, 0xDC00, 0xDC80, 0xDCC3, 0xDCE9, 0xDCFF, 0xDFFF, r.randint(0xD800, 0xDFFF)])) + s[i:]
         return s
 
     def gbytes(self):
